@@ -236,32 +236,42 @@ func (t *Total) Clone() *Total {
 	nt := new(Total)
 	nt.Categories = make([]*CategoryTotal, len(t.Categories))
 	for i, ct := range t.Categories {
-		nt.Categories[i] = new(CategoryTotal)
-		nt.Categories[i].Code = ct.Code
-		nt.Categories[i].Retained = ct.Retained
-		nt.Categories[i].Amount = ct.Amount
-		nt.Categories[i].amount = ct.amount
-		nt.Categories[i].Surcharge = ct.Surcharge
-		nt.Categories[i].Rates = make([]*RateTotal, len(ct.Rates))
-		for j, rt := range ct.Rates {
-			nt.Categories[i].Rates[j] = new(RateTotal)
-			nt.Categories[i].Rates[j].Key = rt.Key
-			nt.Categories[i].Rates[j].Country = rt.Country
-			nt.Categories[i].Rates[j].Ext = rt.Ext
-			nt.Categories[i].Rates[j].Base = rt.Base
-			nt.Categories[i].Rates[j].Percent = rt.Percent
-			nt.Categories[i].Rates[j].Amount = rt.Amount
-			if rt.Surcharge != nil {
-				nt.Categories[i].Rates[j].Surcharge = &RateTotalSurcharge{
-					Percent: rt.Surcharge.Percent,
-					Amount:  rt.Surcharge.Amount,
-				}
-			}
-		}
+		nt.Categories[i] = ct.clone()
 	}
 	nt.Sum = t.Sum
 	nt.sum = t.sum
 	return nt
+}
+
+// clone provides an independent copy of the category total, including its
+// surcharge and rate totals.
+func (ct *CategoryTotal) clone() *CategoryTotal {
+	nct := new(CategoryTotal)
+	nct.Code = ct.Code
+	nct.Retained = ct.Retained
+	nct.Amount = ct.Amount
+	nct.amount = ct.amount
+	if ct.Surcharge != nil {
+		s := *ct.Surcharge
+		nct.Surcharge = &s
+	}
+	nct.Rates = make([]*RateTotal, len(ct.Rates))
+	for j, rt := range ct.Rates {
+		nct.Rates[j] = new(RateTotal)
+		nct.Rates[j].Key = rt.Key
+		nct.Rates[j].Country = rt.Country
+		nct.Rates[j].Ext = rt.Ext
+		nct.Rates[j].Base = rt.Base
+		nct.Rates[j].Percent = rt.Percent
+		nct.Rates[j].Amount = rt.Amount
+		if rt.Surcharge != nil {
+			nct.Rates[j].Surcharge = &RateTotalSurcharge{
+				Percent: rt.Surcharge.Percent,
+				Amount:  rt.Surcharge.Amount,
+			}
+		}
+	}
+	return nct
 }
 
 // Merge will combine two totals objects into a new one, summing up the values
@@ -282,13 +292,8 @@ func (t *Total) Merge(t2 *Total) *Total {
 			}
 		}
 		if catTotal == nil {
-			catTotal = new(CategoryTotal)
-			catTotal.Code = ct.Code
-			catTotal.Retained = ct.Retained
-			catTotal.Amount = ct.Amount
-			catTotal.amount = ct.amount
-			catTotal.Surcharge = ct.Surcharge
-			catTotal.Rates = append(catTotal.Rates, ct.Rates...)
+			// copy, so that the rows of t2 are not shared with the result
+			catTotal = ct.clone()
 			nt.Categories = append(nt.Categories, catTotal)
 		} else {
 			catTotal.Amount = catTotal.Amount.Add(ct.Amount)
